@@ -2656,3 +2656,34 @@ func (c *Ctx) ruleDoneGate(rule string) {
 		c.R.Unresolved(rule, "insertion into the client's pending table")
 	}
 }
+
+// R-PLUGINPANIC (C07 "the server survives any client", observed at the plugin's exit status): the standard entry point
+// of a plugin (package plugin) runs the ATP server and gets back the errors it could not report or had to give up
+// on. None of them may be turned into a panic: a refused signal or a failed step is not a failure of the process, and
+// even a server-fatal error is an exit status, not a crash. Obligation: no explicit panic in package plugin.
+func (c *Ctx) rulePluginPanic(rule string) {
+	fns := c.scopePkg("plugin")
+	if len(fns) == 0 {
+		c.R.Unresolved(rule, "package plugin")
+		return
+	}
+	n := 0
+	for _, fn := range c.M.SortedFuncs(fns) {
+		cnt := 0
+		for _, b := range fn.Blocks {
+			for _, in := range b.Instrs {
+				p, ok := in.(*ssa.Panic)
+				if !ok || !p.Pos().IsValid() {
+					continue
+				}
+				n++
+				cnt++
+				k := key(rule, c.M.Key(fn), sprintf("panic#%d when %s", cnt, c.panicDesc(c.M, fn, p)))
+				c.R.Bad(rule, k, c.M.InstrPos(p), "the plugin entry point panics", "whatever the ATP server returns - a refused signal, a failed step, the end of input without a client-done message - kills the plugin process with a panic after all work has been served")
+			}
+		}
+	}
+	if n == 0 {
+		c.R.Ok(rule, key(rule, "plugin", "no explicit panic in the plugin entry point"), "-", "plugin entry point", sprintf("%d functions of package plugin examined", len(fns)))
+	}
+}
